@@ -1,5 +1,5 @@
 # common.py — shared plumbing of /verif/bin/check (python3 stdlib only)
-import os, sys, json, time, subprocess, fcntl, re, shutil, hashlib, tempfile
+import signal, os, sys, json, time, subprocess, fcntl, re, shutil, hashlib, tempfile
 
 VERIF = os.path.dirname(os.path.dirname(os.path.abspath(__file__)))
 REPO = os.environ.get("VERIF_REPO", "/repo")
@@ -20,15 +20,26 @@ def env(extra=None):
 
 
 def sh(cmd, timeout=600, cwd=None, extra_env=None, stdin=None):
-    """run a shell command; returns (rc, combined output). rc 124 on timeout."""
+    """run a shell command in its own process group; returns (rc, combined output). rc 124 on timeout (the whole group
+    is killed, so that a grandchild holding the pipe cannot keep us waiting)."""
+    p = subprocess.Popen(cmd, shell=isinstance(cmd, str), cwd=cwd, env=env(extra_env), stdout=subprocess.PIPE,
+                         stderr=subprocess.STDOUT, stdin=subprocess.PIPE if stdin is not None else subprocess.DEVNULL,
+                         start_new_session=True)
     try:
-        p = subprocess.run(cmd, shell=isinstance(cmd, str), cwd=cwd, env=env(extra_env), stdout=subprocess.PIPE,
-                           stderr=subprocess.STDOUT, timeout=timeout, input=stdin)
-        out = p.stdout.decode("utf-8", "replace")
+        raw, _ = p.communicate(input=stdin, timeout=timeout)
+        out = raw.decode("utf-8", "replace")
         out = "\n".join(l for l in out.split("\n") if "conda.cli.condarc" not in l)
         return p.returncode, out
-    except subprocess.TimeoutExpired as ex:
-        out = (ex.stdout or b"").decode("utf-8", "replace")
+    except subprocess.TimeoutExpired:
+        try:
+            os.killpg(p.pid, signal.SIGKILL)
+        except Exception:
+            pass
+        try:
+            raw, _ = p.communicate(timeout=10)
+        except Exception:
+            raw = b""
+        out = (raw or b"").decode("utf-8", "replace")
         return 124, out + "\n[timeout after %ss]" % timeout
 
 
